@@ -124,7 +124,19 @@ fn dump_graph(g: &DfirGraph) -> Value {
             .and_then(|oi| (oi.op_constraints.input_delaytype_fn)(dp));
         edges.push(json!([idx(src), sp.to_string(), idx(dst), dp.to_string(), delay_str(delay)]));
     }
-    json!({"nodes": nodes, "edges": edges})
+    // handoff references (`#var` captures) of every node: (target index, is_mut, access group)
+    let refs: Vec<Value> = ids
+        .iter()
+        .map(|&id| {
+            Value::Array(
+                g.node_handoff_references(id)
+                    .iter()
+                    .map(|r| json!([r.node_id.map(idx), r.is_mut, r.access_group]))
+                    .collect(),
+            )
+        })
+        .collect();
+    json!({"nodes": nodes, "edges": edges, "refs": refs})
 }
 
 /// IR dump + the production path emit -> FlatGraphBuilder::build -> eliminate -> partition
